@@ -180,6 +180,12 @@ static inline void L0_E_destroy(E *p) {
   g_ndtor++;
 }
 static inline void L0_destroy_at(E *p) { L0_E_destroy(p); }
+/* std::construct_at (C++20, where amc::construct_at is the standard one) */
+static inline E *L0_construct_at__pE_rE(E *p, const E *v) { L0_E_copy_construct(p, v); return p; }
+static inline E *L0_construct_at__pE_rrE(E *p, E *v) { L0_E_move_construct(p, v); return p; }
+static inline E *L0_construct_at__pE_ri32(E *p, int *a) { L0_E_construct_from__i32(p, *a); return p; }
+static inline E *L0_construct_at__pE_rri32(E *p, int *a) { L0_E_construct_from__i32(p, *a); return p; }
+static inline E *L0_construct_at__pE(E *p) { L0_E_value_construct(p); return p; }
 static inline void L0_E_swap(E *a, E *b) {
   l0_range_ok(a, 1, "a"); l0_range_ok(b, 1, "b");
   L0_assert(a != b, "C02: an element is never swapped with itself");
@@ -500,6 +506,7 @@ static inline void *L0_SimpleAllocator__reallocate__pv_u64_u64(void *a, void *p,
 }
 #define L0_SimpleAllocator__reallocate__pE_u64_u64 L0_SimpleAllocator__reallocate__pv_u64_u64
 #define L0_SimpleAllocator__deallocate__pE_u64 L0_SimpleAllocator__deallocate__pv_u64
+static inline void L0_assert_fail(void) { L0_assert(0, "C16: an assert() of the headers holds under the precondition of the operation (enabling assertions changes nothing)"); }
 static inline void L0_terminate(void) { L0_assert(0, "C13 C17: no exception escapes a noexcept function (std::terminate)"); }
 static inline void L0_missing_return(void) { L0_assert(0, "C15 C16: control reaches the end of a non-void function"); }
 
